@@ -6,6 +6,7 @@
 #include <cstring>
 #include <fstream>
 #include <iostream>
+#include <locale>
 #include <stack>
 #include <vector>
 
@@ -165,6 +166,9 @@ void TraceRecorder::saveLog(const char *logFile, const char *processName)
   // keep dependencies down we don't need a JSON library to produce this simple
   // format
   std::ofstream fout(logFile);
+  // JSON numbers are locale independent; the application may have made the
+  // user's locale (decimal comma, digit grouping) the global C++ locale
+  fout.imbue(std::locale::classic());
 
 #ifdef _WIN32
   const int pid = _getpid();
